@@ -86,6 +86,11 @@ THEOREMS = [
     "Nix.C05.detached_stays_detached",
     "Nix.C05.deleted_entity_refused_forever",
     "Nix.C05.entities_inside_a_copy_refused",
+    "Nix.C05.source_list_takes_only_the_source_walk",
+    "Nix.C05.member_list_takes_only_store_entries",
+    "Nix.C05.not_a_sources_entry_refused",
+    "Nix.C05.not_a_sources_entry_refused_by_extend",
+    "Nix.C05.not_a_store_entry_refused",
 ]
 ASSUMPTIONS = [
     "HDF5 hard links are second names of one object (modelled: a link stores the target node's key); h5py object "
@@ -134,7 +139,13 @@ MANIFEST = {
                   "of these calls handed any kept handle: every call only links what was linked before or is new, so the node is "
                   "never linked again and every later state refuses it); no node an HDF5 copy made inside a copied tag / multi-tag / "
                   "array (the duplicates of what the source links to, carrying the names and ids of members) is a member of a block "
-                  "that existed before: lists, positions / extents and feature data refuse it. The statement lists of "
+                  "that existed before: lists, positions / extents and feature data refuse it. Whatever a source list accepts is "
+                  "reached from its block through `sources` groups only (the walk of find_sources: no metadata / Section.link / "
+                  "properties / references / feature / dimension link is followed), whatever a member list accepts is an entry of "
+                  "the block's own container group of the list's kind: an object that is no entry of a `sources` group (a Section "
+                  "that is the metadata of a source of the block, anything below or linked from it) is refused by every source "
+                  "list (append and extend), an entity of another kind or outside the block's container by every member list. "
+                  "The statement lists of "
                   "link_data_array / link_data_frame / remove_link / the ticks setter, the DataFrame branch of the DimensionLink.unit "
                   "getter and setter, the membership tests in front of "
                   "every link assignment and the object comparisons of Container.__contains__ / SourceLinkContainer are "
@@ -148,7 +159,10 @@ MANIFEST = {
                   "non-members, HDF5-level dumps) and an "
                   "implementation-side oracle that also offers handles standing for no member of the block (kept across a "
                   "deletion, entities inside a copied tag / multi-tag, entities of a deleted block; taken from the same Block "
-                  "object as the list) to every list, role link and feature, assigns the value a getter returns (explicit ticks = "
+                  "object as the list) to every list, role link and feature, offers entities of the WRONG kind that hang below / are "
+                  "linked from the block's own structure (metadata sections of its sources / arrays / tags / groups, their subsections, "
+                  "linked sections and properties, features, dimension links, sources / arrays reached through an entity's links, the "
+                  "block itself) to every list, positions / extents and feature data, assigns the value a getter returns (explicit ticks = "
                   "the linked values) and whose scene holds pairs of distinct entities with the same id (id-keeping copies "
                   "inside a block, across blocks, a whole copied block, a copied section), keeps its books by HDF5 object "
                   "identity and re-points every kind of link (lists, positions/extents, feature data, metadata, dimension "
